@@ -21,7 +21,9 @@ RULE = ('random fields of dtype complex128 / float64 / int64 / bool in C, Fortra
         'M x M grid (M >= both pupil sides), random real and complex masks on arbitrary (non-square) grids and samplings, '
         'with shifts. A case is non-trivial unless the array is 1x1 / the embedding adds nothing / a = 1, b = 0; '
         'distinct = distinct (item, input) tuples')
-ASSUMPTIONS = ['numpy matmul / exp / scipy.fft are trusted primitives (the model plugs Float.cos/sin/sqrt into the same sums)',
+ASSUMPTIONS = ['cases whose shift or Q is handed over as a float32 ndarray are compared at 1e-5 (NumPy computes with the precision of the '
+               'argument the user chose), all others at 1e-9',
+               'numpy matmul / exp / scipy.fft are trusted primitives (the model plugs Float.cos/sin/sqrt into the same sums)',
                'comparison tolerance 1e-9 relative to the largest modulus of the reference (fields O(1), sizes <= 28: observed 1e-14)',
                'model comparison of a shifted single transform is on moduli (a shifted transform is defined up to a unit phase per '
                'output sample); metamorphic pairs and mask round trips are compared as complex numbers']
@@ -29,6 +31,9 @@ TOL = 1e-9
 
 SHIFTS = [(0, 0), (1, 0), (0, -2), (2.5, 0), (0, -2.5), (1.5, -2.25), (-3, 2), (0.5, 0.5)]
 FACT = [1.0, 0.5, 1.7, 0.31, 0.8]
+
+
+_CUR = [None]      # the L.Args of the predicate being evaluated: one set of argument objects per evaluation
 
 
 def _impl():
@@ -66,13 +71,20 @@ def embed(f, shape):
     return out
 
 
-def _fs(c, f, shape_out=None, shift=None, dx_in=None, method=None):
+def _fs(c, f, shape_out=None, shift=None, dx_in=None, method=None, A=None):
+    A = A if A is not None else _CUR[0]
     pr, _ = _impl()
     fn = pr.focus_fixed_sampling if c['dir'] == 'fwd' else pr.unfocus_fixed_sampling
     so = shape_out or (c['M'], c['N'])
-    sh = shift if shift is not None else (c['shift'][0] * c['dxo'], c['shift'][1] * c['dxo'])
+    sh = shift if shift is not None else L.eff_shift(c, c['dxo'])
+    hform = c.get('hform', 'tuple')
+    if hform == 'default' and any(sh):
+        hform = 'tuple'
+    sform = c.get('sform', 'tuple')
+    if sform in ('int', 'npint') and so[0] != so[1]:
+        sform = 'tuple'
     return L.call_fixed(fn, f, c['dx'], c['efl'], c['lam'], c['dxo'], so[0], so[1], sh[0], sh[1], method or c['method'],
-                        c.get('sform', 'tuple'), c.get('hform', 'tuple') if any(sh) or c.get('hform') != 'default' else 'default')
+                        sform, hform, A)
 
 
 # ------------------------------------------------------------------------------------------------
@@ -83,55 +95,84 @@ def pred_linear(c):
     f, g = _cfield(c), _cfield(c, 1)
     f0, g0 = f.copy(), g.copy()
     a, b = complex(*c['a']), complex(*c['b'])
-    lhs = _fs(c, a * f + b * g)
-    rhs = a * _fs(c, f) + b * _fs(c, g)
+    A = L.Args()
+    lhs = _fs(c, a * f + b * g, A=A)
+    rhs = a * _fs(c, f, A=A) + b * _fs(c, g, A=A)
     if not _unchanged((f, g), (f0, g0)):
         return 'an input array was modified in place'
+    if A.changed():
+        return A.changed()
     err = _relerr(lhs, rhs)
-    return None if err <= TOL else f'T(a f + b g) != a T(f) + b T(g) for {f0.dtype} fields (rel. err {err:.3g})'
+    return None if err <= L.tol_of(c, TOL) else f'T(a f + b g) != a T(f) + b T(g) for {f0.dtype} fields (rel. err {err:.3g})'
 
 
 def pred_pad(c):
     m, n = c['m'], c['n']
     f = _cfield(c)
     big = embed(np.array(f), (m + c['pad'][0], n + c['pad'][1]))
-    a, b = _fs(c, f), _fs(c, big)
+    A = L.Args()
+    a, b = _fs(c, f, A=A), _fs(c, big, A=A)
+    if A.changed():
+        return A.changed()
     err = _relerr(b, a)
-    return None if err <= TOL else (f'output changes when the {m}x{n} field is embedded in a {big.shape[0]}x{big.shape[1]} zero array '
+    return None if err <= L.tol_of(c, TOL) else (f'output changes when the {m}x{n} field is embedded in a {big.shape[0]}x{big.shape[1]} zero array '
                                     f'at the same spacing (rel. err {err:.3g})')
 
 
 def pred_transpose(c):
     m, n = c['m'], c['n']
     f = _cfield(c)
-    sx, sy = c['shift'][0] * c['dxo'], c['shift'][1] * c['dxo']
-    a = _fs(c, f, (c['M'], c['N']), (sx, sy))
-    b = _fs(c, f.T, (c['N'], c['M']), (sy, sx))       # a transposed VIEW (non-contiguous), as a user would pass it
+    sx, sy = L.eff_shift(c, c['dxo'])
+    A = L.Args()
+    a = _fs(c, f, (c['M'], c['N']), (sx, sy), A=A)
+    b = _fs(c, f.T, (c['N'], c['M']), (sy, sx), A=A)       # a transposed VIEW (non-contiguous), as a user would pass it
+    if A.changed():
+        return A.changed()
     err = _relerr(b.T, a)
-    return None if err <= TOL else f'T(f^T; swapped samples and shifts) != T(f)^T (rel. err {err:.3g})'
+    return None if err <= L.tol_of(c, TOL) else f'T(f^T; swapped samples and shifts) != T(f)^T (rel. err {err:.3g})'
 
 
 def pred_methods_agree(c):
     """both methods return the same complex array, with or without a shift, for every dtype"""
     f = _cfield(c)
-    a, b = _fs(c, f, method='mdft'), _fs(c, f, method='czt')
+    A = L.Args()
+    a, b = _fs(c, f, method='mdft', A=A), _fs(c, f, method='czt', A=A)
+    if A.changed():
+        return A.changed()
     err = _relerr(b, a)
-    return None if err <= TOL else f"method='czt' and method='mdft' disagree as complex arrays for a {f.dtype} field (rel. err {err:.3g})"
+    return None if err <= L.tol_of(c, TOL) else f"method='czt' and method='mdft' disagree as complex arrays for a {f.dtype} field (rel. err {err:.3g})"
 
 
-def _exec(c, f, Q=None, so=None, shift=None):
+def _exec(c, f, Q=None, so=None, shift=None, A=None):
+    A = A if A is not None else _CUR[0]
+    """executor call with the case's container types for Q, samples_out and shift; the same objects for equal values when an
+    `L.Args` is given"""
     _, ft = _impl()
     ex = {'mdft': (ft.mdft.dft2, ft.mdft.idft2), 'czt': (ft.czt.czt2, ft.czt.iczt2)}[c['method']][0 if c['dir'] == 'fwd' else 1]
-    return ex(f, Q if Q is not None else tuple(c['Q']), so or (c['M'], c['N']), shift if shift is not None else tuple(c['shift']))
+    Q = Q if Q is not None else tuple(c['Q'])
+    so = so or (c['M'], c['N'])
+    shift = shift if shift is not None else tuple(c['shift'])
+    qf, sf, hf = c.get('qform', 'tuple'), c.get('sform', 'tuple'), c.get('hform', 'tuple')
+    if sf in ('int', 'npint') and so[0] != so[1]:
+        sf = 'tuple'
+    if hf in ('default', 'arrayint', 'array32'):
+        hf = 'array' if hf != 'default' else 'tuple'
+    return ex(f, L.q_arg(qf, Q[0], Q[1], A), L.samples_arg(sf, so[0], so[1], A), L.shift_arg(hf, shift[0], shift[1], A))
 
 
 def pred_exec_transpose(c):
     """executor level, per-axis Q: dft2(f^T, (Qx,Qy), (N,M), (sy,sx)) = dft2(f, (Qy,Qx), (M,N), (sx,sy))^T"""
     f = _cfield(c)
-    a = _exec(c, f)
-    b = _exec(c, f.T, (c['Q'][1], c['Q'][0]), (c['N'], c['M']), (c['shift'][1], c['shift'][0]))
+    A = L.Args()
+    a = _exec(c, f, A=A)
+    b = _exec(c, f.T, (c['Q'][1], c['Q'][0]), (c['N'], c['M']), (c['shift'][1], c['shift'][0]), A=A)
+    a2 = _exec(c, f, A=A)
+    if A.changed():
+        return A.changed()
+    if not np.array_equal(a, a2):
+        return 'a repeated executor call with the same argument objects gives a different result'
     err = _relerr(b.T, a)
-    return None if err <= TOL else f'executor transform of f^T with swapped per-axis Q / samples / shifts != transpose (rel. err {err:.3g})'
+    return None if err <= L.tol_of(c, TOL) else f'executor transform of f^T with swapped per-axis Q / samples / shifts != transpose (rel. err {err:.3g})'
 
 
 def pred_exec_pad(c):
@@ -141,10 +182,13 @@ def pred_exec_pad(c):
     m2, n2 = m + c['pad'][0], n + c['pad'][1]
     big = embed(np.array(f), (m2, n2))
     Q2 = (c['Q'][0] * m / m2, c['Q'][1] * n / n2)
-    a, b = _exec(c, f), _exec(c, big, Q2)
+    A = L.Args()
+    a, b = _exec(c, f, A=A), _exec(c, big, Q2, A=A)
+    if A.changed():
+        return A.changed()
     # the norm sqrt(1/(m Qy n Qx)) is unchanged because m Q is
     err = _relerr(b, a)
-    return None if err <= TOL else f'executor output changes under zero-pad embedding with n*Q fixed per axis (rel. err {err:.3g})'
+    return None if err <= L.tol_of(c, TOL) else f'executor output changes under zero-pad embedding with n*Q fixed per axis (rel. err {err:.3g})'
 
 
 def pred_exec_separable(c):
@@ -163,16 +207,27 @@ def pred_exec_separable(c):
 
 def _fpm_args(c):
     f = _cfield(c)
-    return f, (c['shift'][0] * c['fdx'], c['shift'][1] * c['fdx'])
+    return f, L.eff_shift(c, c['fdx'])
 
 
-def _T(c, f, mask, sh=None, method=None, fdx='case', **kw):
-    """to_fpm_and_back as a free function"""
+def _T(c, f, mask, sh=None, method=None, fdx='case', A=None, **kw):
+    """to_fpm_and_back as a free function; the shift in the case's container type (the same object for every call of a
+    predicate when an `L.Args` is given)"""
     pr, _ = _impl()
+    A = A if A is not None else _CUR[0]
     if sh is None:
-        sh = (c['shift'][0] * c['fdx'], c['shift'][1] * c['fdx'])
-    return pr.to_fpm_and_back(f, c['dx'], c['efl'], c['lam'], mask, c['fdx'] if fdx == 'case' else fdx, shift=sh,
-                              method=method or c['method'], **kw)
+        sh = L.eff_shift(c, c['fdx'])
+    hf = c.get('hform', 'tuple')
+    if hf == 'default':
+        hf = 'tuple'
+    return pr.to_fpm_and_back(f, c['dx'], c['efl'], c['lam'], mask, c['fdx'] if fdx == 'case' else fdx,
+                              shift=L.shift_arg(hf, sh[0], sh[1], A), method=method or c['method'], **kw)
+
+
+def _sh(c, sh):
+    """the shift (physical units) in the case's container type, one object per evaluation"""
+    hf = c.get('hform', 'tuple')
+    return L.shift_arg('tuple' if hf == 'default' else hf, sh[0], sh[1], _CUR[0])
 
 
 def pred_allpass(c):
@@ -183,7 +238,7 @@ def pred_allpass(c):
     f0 = f.copy()
     M = c['M']
     fdx = c['lam'] * c['efl'] / (M * c['dx'])
-    sh = (c['shift'][0] * fdx, c['shift'][1] * fdx)
+    sh = _sh(c, L.eff_shift(c, fdx))
     mask = np.ones((M, M), dtype={'b1': bool, 'i8': np.int64}.get(c.get('mdtype'), float))
     fdx_arg = fdx
     if c.get('mask_wf'):
@@ -201,7 +256,7 @@ def pred_allpass(c):
     if not _unchanged((f,), (f0,)):
         return 'the input field was modified in place'
     err = _relerr(out, L.as_complex(f0)) if np.shape(out) == f0.shape else float('inf')
-    return None if err <= TOL else (f'all-pass mask on a band-complete {M}x{M} grid with shift {c["shift"]} samples does not return the '
+    return None if err <= L.tol_of(c, TOL) else (f'all-pass mask on a band-complete {M}x{M} grid with shift {c["shift"]} samples does not return the '
                                     f'{f0.dtype} field (rel. err {err:.3g})')
 
 
@@ -236,14 +291,14 @@ def pred_babinet(c):
     if not _unchanged((f, mk), (f0, mk0)):
         return 'the field or the mask was modified in place'
     err = _relerr(tm + _T(c, f, 1 - _num(mk)), one)
-    if err > TOL:
+    if err > L.tol_of(c, TOL):
         return f'{mk.dtype} mask and complement do not sum to the unmasked result (rel. err {err:.3g})'
     err = _relerr(_T(c, f, _num(mk) + m2), tm + _T(c, f, m2))
-    if err > TOL:
+    if err > L.tol_of(c, TOL):
         return f'T(m1 + m2) != T(m1) + T(m2) (rel. err {err:.3g})'
     cc = 0.75 - 1.25j
     err = _relerr(_T(c, f, cc * m2), cc * _T(c, f, m2))
-    if err > TOL:
+    if err > L.tol_of(c, TOL):
         return f'T(c m) != c T(m) for the complex scalar c = {cc} and a complex mask (rel. err {err:.3g})'
     return None
 
@@ -257,21 +312,21 @@ def pred_fpm_field(c):
     a, b = complex(*c.get('a', [1.5, -0.5])), complex(*c.get('b', [0.25, 2.0]))
     base = _T(c, f, mk)
     err = _relerr(_T(c, a * f + b * g, mk), a * base + b * _T(c, g, mk))
-    if err > TOL:
+    if err > L.tol_of(c, TOL):
         return f'to_fpm_and_back is not linear in the field (rel. err {err:.3g})'
     pad = c.get('pad', [2, 3])
     big = _T(c, embed(np.array(f), (c['m'] + pad[0], c['n'] + pad[1])), mk)
     oy, ox = (c['m'] + pad[0]) // 2 - c['m'] // 2, (c['n'] + pad[1]) // 2 - c['n'] // 2
     inner = big[oy:oy + c['m'], ox:ox + c['n']]
     err = _relerr(inner, base)
-    if err > TOL:
+    if err > L.tol_of(c, TOL):
         return f'to_fpm_and_back of the zero-pad-embedded field differs on the original support (rel. err {err:.3g})'
     t = _T(c, f.T, np.asarray(mk).T, (sh[1], sh[0]))
     err = _relerr(t.T, base)
-    if err > TOL:
+    if err > L.tol_of(c, TOL):
         return f'to_fpm_and_back of transposed field / mask / shifts is not the transpose (rel. err {err:.3g})'
     err = _relerr(_T(c, f, mk, method='czt'), _T(c, f, mk, method='mdft'))
-    if err > TOL:
+    if err > L.tol_of(c, TOL):
         return f'to_fpm_and_back differs between the two methods (rel. err {err:.3g})'
     return None
 
@@ -286,6 +341,7 @@ def pred_return_more(c):
     fdx = c['fdx']
     plain = _T(c, f, mk)
     at_ref = pr.focus_fixed_sampling(f, c['dx'], c['efl'], c['lam'], fdx, mk.shape, shift=sh, method=c['method'])
+    sh = _sh(c, sh)
     mask_arg, fdx_arg = mk, fdx
     if c.get('mask_wf'):
         mask_arg = pr.Wavefront(np.asarray(mk, dtype=complex), c['lam'], fdx, 'psf')
@@ -309,7 +365,7 @@ def pred_return_more(c):
         if not isinstance(w, np.ndarray) or w.shape != ref.shape:
             return f'return_more[{nm}] has shape {getattr(w, "shape", None)}, expected {ref.shape}'
         err = _relerr(w, ref)
-        if err > TOL:
+        if err > L.tol_of(c, TOL):
             return f'return_more[{nm}] is not the {nm} (rel. err {err:.3g})'
     return None
 
@@ -347,14 +403,14 @@ def pred_babinet_wavefront(c):
             if bad:
                 return bad
             err = _relerr(w.data, r)
-            if err > TOL:
+            if err > L.tol_of(c, TOL):
                 return f'babinet return_more[{nm}] is not the {nm} (rel. err {err:.3g})'
         return None
     bad = L.check_wavefront(res, 'babinet(...)', f.shape, c['dx'], c['lam'], 'pupil')
     if bad:
         return bad
     err = _relerr(res.data, ref)
-    return None if err <= TOL else f'babinet(B) != lyot*(field - T(1) + T(B)) (rel. err {err:.3g})'
+    return None if err <= L.tol_of(c, TOL) else f'babinet(B) != lyot*(field - T(1) + T(B)) (rel. err {err:.3g})'
 
 
 PREDS = {'linear': pred_linear, 'pad': pred_pad, 'transpose': pred_transpose, 'methods_agree': pred_methods_agree,
@@ -370,7 +426,8 @@ def pred_pure(c):
         f, sh = _fpm_args(c)
         mk = np.ones((c['M'], c['M'])) if c.get('mask') == 'ones' else _mask(c)
         arrs = (f, mk)
-        call = lambda: pr.to_fpm_and_back(f, c['dx'], c['efl'], c['lam'], mk, c['fdx'], shift=sh, method=c['method'])   # noqa: E731
+        shobj = _sh(c, sh)
+        call = lambda: pr.to_fpm_and_back(f, c['dx'], c['efl'], c['lam'], mk, c['fdx'], shift=shobj, method=c['method'])   # noqa: E731
     elif 'Q' in c:
         f = _cfield(c)
         arrs = (f,)
@@ -385,6 +442,8 @@ def pred_pure(c):
     r1 = np.array(call())
     if not _unchanged(arrs, snaps):
         return 'implementation modified a caller-owned argument array in place'
+    if _CUR[0] is not None and _CUR[0].changed():
+        return _CUR[0].changed()
     r2 = np.array(call())
     if r1.shape != r2.shape or not np.array_equal(r1, r2):
         return 'second evaluation with the same arguments differs from the first (history dependence)'
@@ -395,10 +454,17 @@ PREDS.update({'fixed_vs_model': pred_pure, 'exec_vs_model': pred_pure, 'fpm_vs_m
 
 
 def eval_pred(item, c):
+    """None (holds) or a detail string; every evaluation uses ONE set of argument objects (shift / sample-count / Q containers)
+    for all its calls and fails when an implementation modified one of them in place"""
+    _CUR[0] = L.Args()
     try:
-        return PREDS[item](c)
+        d = PREDS[item](c)
     except Exception as ex:   # noqa
-        return f'raised {type(ex).__name__}: {ex}'
+        d = f'raised {type(ex).__name__}: {ex}'
+    A, _CUR[0] = _CUR[0], None
+    if d is None and A.changed():
+        d = A.changed()
+    return d
 
 
 # ------------------------------------------------------------------------------------------------
@@ -438,8 +504,11 @@ def gen_exec(rng, hi, i):
     if rng.integers(4) == 0:
         Qx = Qy
     c['Q'] = [Qy, Qx]
-    for k in ('lam', 'efl', 'dx', 'dxo', 'a', 'b', 'sform', 'hform'):
+    for k in ('lam', 'efl', 'dx', 'dxo', 'a', 'b'):
         del c[k]
+    c['qform'] = ['tuple', 'list', 'array', 'npscalars', 'array'][int(rng.integers(5))]
+    if c['hform'] in ('default', 'arrayint', 'array32'):
+        c['hform'] = 'array'
     return c
 
 
@@ -457,7 +526,8 @@ def gen_allpass(rng, hi, i):
     dtype, layout = L.draw_kind(rng)
     return {'m': m, 'n': n, 'M': M, 'lam': lam, 'efl': efl, 'dx': dx, 'shift': list(sh), 'fdx': lam * efl / (M * dx),
             'method': 'czt' if rng.integers(2) else 'mdft', 'seed': int(rng.integers(1 << 30)), 'wavefront': bool(rng.integers(2)),
-            'mask_wf': _mask_wf(rng), 'dtype': dtype, 'layout': layout, 'mdtype': ['f8', 'f8', 'b1', 'i8'][int(rng.integers(4))]}
+            'mask_wf': _mask_wf(rng), 'dtype': dtype, 'layout': layout, 'mdtype': ['f8', 'f8', 'b1', 'i8'][int(rng.integers(4))],
+            'hform': L.SHIFT_FORMS[int(rng.integers(len(L.SHIFT_FORMS)))]}
 
 
 def gen_fpm(rng, hi, i):
@@ -475,7 +545,8 @@ def gen_fpm(rng, hi, i):
             'mask': ['real', 'complex', 'binary', 'bool', 'int', 'strided', 'complex'][int(rng.integers(7))],
             'lyot': [False, True, 'wavefront'][int(rng.integers(3))], 'mask_wf': _mask_wf(rng), 'wavefront': bool(rng.integers(2)),
             'return_more': bool(rng.integers(2)), 'dtype': dtype, 'layout': layout,
-            'pad': [int(rng.integers(0, 5)), int(rng.integers(0, 5))]}
+            'pad': [int(rng.integers(0, 5)), int(rng.integers(0, 5))],
+            'hform': L.SHIFT_FORMS[int(rng.integers(len(L.SHIFT_FORMS)))]}
 
 
 # ------------------------------------------------------------------------------------------------
@@ -517,7 +588,7 @@ def correspondence(ctx):
     for i in range(n_meta):
         c = gen_fixed(rng, hi, i)
         f = _cfield(c)
-        sx, sy = c['shift'][0] * c['dxo'], c['shift'][1] * c['dxo']
+        sx, sy = L.eff_shift(c, c['dxo'])
         variants = [('plain', f, (c['M'], c['N']), (sx, sy)),
                     ('embedded', embed(np.array(f), (c['m'] + c['pad'][0], c['n'] + c['pad'][1])), (c['M'], c['N']), (sx, sy)),
                     ('transposed', f.T, (c['N'], c['M']), (sy, sx))]
@@ -561,14 +632,17 @@ def correspondence(ctx):
                    f"{c['dtype']}-{c['layout']}/samples-{c['sform']}")
             ctx.case('fixed_vs_model', case, nontrivial=arr.size > 1, tag=tag)
             try:
-                out = C.pure_call(ctx, 'fixed_vs_model', case, _fs, c, arr, so, sh)
+                A = L.Args()
+                out = C.pure_call(ctx, 'fixed_vs_model', case, _fs, c, arr, so, sh, None, None, A)
+                if A.changed():
+                    ctx.pred_fail('fixed_vs_model', case, A.changed())
             except Exception as ex:
                 ctx.disagree('fixed_vs_model', case, f'raised {type(ex).__name__}: {ex}', 'model returns a field')
                 continue
             mod = _unwire_field(rep.split(), so)
-            a, b = (out, mod) if not any(c['shift']) else (np.abs(out), np.abs(mod))
+            a, b = (out, mod) if not any(sh) else (np.abs(out), np.abs(mod))
             err = _relerr(a, b) if out.shape == mod.shape else float('inf')
-            if err > TOL:
+            if err > L.tol_of(c, TOL):
                 ctx.disagree('fixed_vs_model', case, f'shape {out.shape}', f'rel. err {err:.3g}')
             continue
         if kind == 'ex':
@@ -576,14 +650,17 @@ def correspondence(ctx):
             tag = f"{c['dir']}/{c['method']}/{'Qiso' if c['Q'][0] == c['Q'][1] else 'Qaniso'}/{'sq' if c['m'] == c['n'] else 'nonsq'}"
             ctx.case('exec_vs_model', c, nontrivial=f.size > 1, tag=tag)
             try:
-                out = C.pure_call(ctx, 'exec_vs_model', c, _exec, c, f)
+                A = L.Args()
+                out = C.pure_call(ctx, 'exec_vs_model', c, _exec, c, f, None, None, None, A)
+                if A.changed():
+                    ctx.pred_fail('exec_vs_model', c, A.changed())
             except Exception as ex:
                 ctx.disagree('exec_vs_model', c, f'raised {type(ex).__name__}: {ex}', 'model returns a field')
                 continue
             mod = _unwire_field(rep.split(), (c['M'], c['N']))
             a, b = (out, mod) if not any(c['shift']) else (np.abs(out), np.abs(mod))
             err = _relerr(a, b) if out.shape == mod.shape else float('inf')
-            if err > TOL:
+            if err > L.tol_of(c, TOL):
                 ctx.disagree('exec_vs_model', c, f'shape {out.shape}', f'rel. err {err:.3g}')
             continue
         if kind in ('fpm', 'fpmpt'):
@@ -591,7 +668,9 @@ def correspondence(ctx):
             tag = f"{c['mask']}/{c['method']}/{'sq' if c['m'] == c['n'] else 'nonsq'}/{'shift' if any(c['shift']) else 'noshift'}"
             ctx.case('fpm_vs_model', c, nontrivial=f.size > 1, tag=tag)
             try:
-                out = C.pure_call(ctx, 'fpm_vs_model', c, pr.to_fpm_and_back, f, c['dx'], c['efl'], c['lam'], mk, c['fdx'], shift=sh,
+                hf = c.get('hform', 'tuple')
+                shobj = L.shift_arg('tuple' if hf == 'default' else hf, sh[0], sh[1])
+                out = C.pure_call(ctx, 'fpm_vs_model', c, pr.to_fpm_and_back, f, c['dx'], c['efl'], c['lam'], mk, c['fdx'], shift=shobj,
                                   method=c['method'])
             except Exception as ex:
                 ctx.disagree('fpm_vs_model', c, f'raised {type(ex).__name__}: {ex}', 'model returns a field')
@@ -603,12 +682,12 @@ def correspondence(ctx):
                 if out.shape != f.shape:
                     ctx.disagree('fpm_vs_model', c, list(out.shape), list(f.shape), note='shape')
                     continue
-                if abs(out[j, k] - mod) > TOL * max(1.0, np.abs(out).max()):
+                if abs(out[j, k] - mod) > L.tol_of(c, TOL) * max(1.0, np.abs(out).max()):
                     ctx.disagree('fpm_vs_model', dict(c, point=[j, k]), complex(out[j, k]), mod, note='Model.C05.toFpmAndBack pointwise')
                 continue
             mod = _unwire_field(rep.split(), f.shape)
             err = _relerr(out, mod) if out.shape == mod.shape else float('inf')
-            if err > TOL:
+            if err > L.tol_of(c, TOL):
                 ctx.disagree('fpm_vs_model', c, f'shape {out.shape}', f'rel. err {err:.3g}')
 
     # ---------------- metamorphic predicates on the real code
@@ -746,7 +825,12 @@ def replay(inp):
         print('no predicate for item', item)
         return False
     d = eval_pred(item, c)
-    print('metamorphic relation on the real code:', 'holds' if d is None else f'FAILS: {d}')
+    print('metamorphic relation on the real code, fresh process:', 'holds' if d is None else f'FAILS: {d}')
+    if d is None:
+        # the recorded failure may need earlier calls (state kept between calls): repeat after a deterministic history
+        hist = L.prelude(c)
+        d = eval_pred(item, c)
+        print(f'after {hist}:', 'holds' if d is None else f'FAILS: {d}')
     return d is not None
 
 
